@@ -22,6 +22,7 @@ FLOOR = 5.0            # abserr >= FLOOR * eps * |result| from the third term on
 FLOOR_SLACK = 1e-12    # relative slack on the floor comparison (one rounding)
 NE_MAX = 10            # EpsAlg is compared with the exact table on the first NE_MAX terms
 NONTRIV_B = 1e-6
+TINY = 2.2250738585072014e-308
 
 
 # ------------------------------------------------------------------------------- generators ---
@@ -117,7 +118,8 @@ def random_stream(draw):
         q = draw(st.sampled_from([0.5, -0.5, 0.25, 0.1]))
         terms = [1.0 + q ** j for j in range(m)]
         terms += [draw(sgn) * 10.0 ** draw(st.floats(-2, 2)) for _ in range(draw(st.integers(1, 12)))]
-    terms = [float(t) for t in terms]
+    # stay clear of the underflow range (the property speaks of moderate magnitudes)
+    terms = [float(t) if abs(t) >= 1e-150 else 0.0 for t in terms]
     return dict(kind='random', family=fam, terms=terms, limexp=draw(_limexp()))
 
 
@@ -146,7 +148,7 @@ class C14(Prop):
                    'perturbed difference could lose half its size get B = inf and are not asserted)',
                    'Dea._n / Dea.epstab / Dea.limexp are read for classification (table full, reset, '
                    'convergence) and for finding_key only, never for the verdict')
-    constants = {'C_EPSALG': C_EPSALG, 'C_DEA3': C_DEA3, 'C_DEA_EPSALG': C_DEA_EPSALG, 'FLOOR': FLOOR,
+    constants = {'TINY_ABS': TINY, 'C_EPSALG': C_EPSALG, 'C_DEA3': C_DEA3, 'C_DEA_EPSALG': C_DEA_EPSALG, 'FLOOR': FLOOR,
                  'FLOOR_SLACK': FLOOR_SLACK, 'NE_MAX': NE_MAX, 'NONTRIV_B': NONTRIV_B, 'GUARD_WIDEN': 4}
     examples = {'quick': 3000, 'thorough': 20000}
 
@@ -224,6 +226,13 @@ class C14(Prop):
                     except Exception:
                         pass
             beyond = bool(isinstance(pre_n, int) and isinstance(eff, int) and pre_n >= eff)
+            underflow = False
+            if isinstance(pre_n, int):
+                try:
+                    head = np.abs(np.asarray(dea.epstab[:pre_n], dtype=float))
+                    underflow = bool(np.any((head > 0) & (head < 1e-290)))
+                except Exception:
+                    pass
             after_reset = bool(i >= 2 and isinstance(pre_n, int) and pre_n < 2)
             try:
                 with ctx.lib('dea-no-exception', 'Dea(limexp=%d) term %d of a %d-term %s stream'
@@ -237,8 +246,11 @@ class C14(Prop):
                 flags.add('reset' if post_n < pre_n else 'table-capped')
             det = dict(term=i, pre_n=pre_n, limexp=limexp, after_reset=after_reset, n_beyond_table=beyond)
             if not (_finite(res) and _finite(err)):
-                raise Violation('dea-finite', 'Dea(limexp=%d) term %d returned (%r, %r) for finite input'
-                                % (limexp, i + 1, res, err), **det)
+                nan = bool(res != res or err != err)
+                raise Violation('dea-finite', 'Dea(limexp=%d) term %d of a %d-term %s stream returned (%r, %r) '
+                                'for finite input' % (limexp, i + 1, len(terms), case['family'], float(res),
+                                                      float(err)),
+                                nan=nan, table_underflow=underflow, **det)
             res, err = float(res), float(err)
             if i < 2:
                 if not (res == s):
@@ -264,7 +276,7 @@ class C14(Prop):
             r3 = float(np.ravel(ext.dea3(s0, s1, s2)[0])[0])
         an = shanks_analysis(s0, s1, s2)
         emax = max(abs(s0), abs(s1), abs(s2))
-        unit = float(an['T']) if an['T'] is not None else EPS * emax
+        unit = (float(an['T']) if an['T'] is not None else EPS * emax) + TINY    # + underflow level
         diff = abs(res - r3)
         if unit > 0:
             ctx.track('dea term3 |Dea-dea3|/T', diff / unit, dict(terms=[s0, s1, s2]))
@@ -318,7 +330,7 @@ class C14(Prop):
     def finding_key(self, case, violation):
         d = violation.details
         key = {'clause': violation.clause, 'family': case.get('family') if case else None}
-        for name in ('exception', 'where', 'after_reset', 'n_beyond_table'):
+        for name in ('exception', 'where', 'after_reset', 'n_beyond_table', 'nan', 'table_underflow'):
             if name in d:
                 key[name] = d[name]
         return key
